@@ -1,7 +1,7 @@
 """Table fragment of engine mcpgate (merged by checks_table._merge_fragments)."""
 
 ENGINES = {
-    "mcpgate": {"pkg": "internal/mcp", "dir": "harness/mcpgate", "replay": "TestReplay_MCP"},
+    "mcpgate": {"pkg": "internal/mcp", "dir": "harness/mcpgate", "replay": "TestReplay_MCP", "extra_bins": {"hookaido": "./cmd/hookaido"}},
 }
 
 PROPS = {
@@ -14,7 +14,11 @@ PROPS = {
                 "TestProp_C20_Table draws a row index (tool class weighted to config writers and queue mutations, then 45% allowed / 35% single-gate / 20% any row of the class) + a generated argument shape (no/empty/minimal arguments plus up to 3 "
                 "mutators: unknown keys, wrong types, dropped keys, actor equal/different/case/padded, reason, path and pid_file exact/alias/symlink/inside/"
                 "dot-dot/absolute foreign/free-form, mode, content valid/invalid/arbitrary, ids, filters, items). "
-                "non-trivial = exactly one gate fails, or an allowed mutating call, or an allowed config-writing call with a foreign path; distinct by SHA-256 of the case JSON",
+                "non-trivial = exactly one gate fails, or an allowed mutating call, or an allowed config-writing call with a foreign path; distinct by SHA-256 of the case JSON. "
+                "command-line tier (TestProp_C20_CLI): one real `hookaido mcp serve` process per case, started with generated flags (--role absent/read/operate/admin/"
+                "non-role, --enable-mutations, --enable-runtime-control, --principal absent/present/blank) over the same fixture; tools/list and 1-5 tools/call (minimal valid "
+                "arguments) are sent over stdin and judged by the same table; a session in which no mutating call is allowed must leave the fixture tree untouched; "
+                "non-trivial there = a call with exactly one failing gate",
         "assumptions": [
             "runtime-control tools never start or stop a real process: --run-binary is a stub that only appends to a marker file, the pid file names a pid above pid_max, "
             "waits are clamped to 1ms; for those tools 'runs' is observed as 'not refused by gating'",
@@ -30,6 +34,7 @@ PROPS = {
             {"engine": "mcpgate", "test": "TestProp_C20_Exhaustive", "quick": 6336, "thorough": 10560, "native": True,
              "shards": {"quick": 2, "thorough": 2}, "env": {"VERIF_NSHARDS": 2}},
             {"engine": "mcpgate", "test": "TestProp_C20_Table", "quick": 10000, "thorough": 400000},
+            {"engine": "mcpgate", "test": "TestProp_C20_CLI", "quick": 400, "thorough": 20000, "shards": {"quick": 8, "thorough": 16}, "needs_bins": ["hookaido"]},
         ],
     },
     "C14": {
